@@ -35,3 +35,42 @@ func DumpSites(p *core.Prog, spec string) {
 		fmt.Printf("\t\t{%q, %q, %d, \"\"}, // %s\n", k.fn, k.callee, cnt[k], strings.Join(pos[k], " "))
 	}
 }
+
+// DumpPanics prints explicit panic sites in the CHA closure of a root function (development aid).
+func DumpPanics(p *core.Prog, rootName string) {
+	root := p.Fn(rootName)
+	if root == nil {
+		fmt.Println("no such function", rootName)
+		return
+	}
+	cl := p.Closure([]*core.FuncInfo{root}, nil)
+	n := 0
+	byPkg := map[string]int{}
+	for _, f := range cl {
+		if f.Body == nil {
+			continue
+		}
+		for _, e := range f.Graph().Events {
+			if e.Kind == core.EvCall && core.CalleeName(e) == "builtin:panic" {
+				n++
+				byPkg[core.Rel(f.Pkg.PkgPath)]++
+				fmt.Printf("%s @%s: %s\n", f.Root().Name, p.Pos(e.Pos()), core.ExprStr(e.Call))
+			}
+		}
+	}
+	fmt.Println("closure functions:", len(cl), "panic sites:", n, byPkg)
+}
+
+// DumpDefaultPanics lists panics located in the default clause of a switch within the closure of root.
+func DumpDefaultPanics(p *core.Prog, rootName string) {
+	root := p.Fn(rootName)
+	cl := p.Closure([]*core.FuncInfo{root}, nil)
+	for _, f := range cl {
+		if f.Body == nil {
+			continue
+		}
+		for _, dp := range defaultPanics(f) {
+			fmt.Printf("%s @%s kind=%s cases=%v missing=%v\n", f.Root().Name, p.Pos(dp.pos), dp.kind, dp.cases, dp.missing)
+		}
+	}
+}
